@@ -22,7 +22,7 @@ class IDevice2(Device):
   _cost_fn = None
 
   def __init__(self, id, length, bounds, cbounds=None, **kwargs):
-    super().__init__(id, length, bounds, cbounds=None, **kwargs)
+    super().__init__(id, length, bounds, cbounds, **kwargs)
     self._cost_fn = HLQuadraticCost(self.p_l, self.p_h, self.lbounds, self.hbounds)
 
   def costv(self, s, p):
